@@ -30,7 +30,23 @@ CLAIMED = {
 NOT_YET = {
  "C14": "decided by rustc's type checker over a corpus of programs: no schedule, clock, fault or history for a simulator to control (DESIGN.md section 4, C14)",
 }
-PENDING = {k: 'check not built yet (work in progress, see DESIGN.md)' for k in ['C02','C04','C09','C10','C11','C12','C13','C15','C16']}
+PENDING = {k: 'check not built yet (work in progress, see DESIGN.md)' for k in ['C04','C09','C10','C13','C15','C16']}
+
+CLAIMED.update({
+ "C02": ("fault_enumeration", "crash", "4.C02",
+   "A seeded history runs over SimOS, which logs every write, extension and sync with its bytes. For each chosen commit (all when few, otherwise biased to growth and large commits) the engine synthesises the images a crash could leave: process kill at every prefix of the commit's I/O and one point after it; power loss at the end of every sync epoch inside the commit and at return, with EVERY subset of the writes issued since the last completed sync when there are at most 10 (prefixes, leave-one-out, singletons and a seeded sample otherwise), sector-granular tears of surviving multi-sector writes, and word-granular tears of the header write (all prefixes, single words, all-but-one; all 2^13 word subsets for one commit per run in thorough). Every image is reopened through the public API: open must succeed, the raw file must pass the independent checker, the contents must be exactly the pre- or exactly the post-state (only post once commit has returned), and a further write transaction must commit and verify.",
+   "classic durable-media model: a write issued since the last completed fsync may persist or not, torn at 512 B sectors (header at 8 B words); lying firmware, misdirected writes and O_DIRECT are out of scope; crash during initial file creation is outside the quantifier",
+   "deterministic simulation with fault injection: crash-image enumeration from the SimOS event log"),
+ "C11": ("fault_enumeration", "fault", "4.C11",
+   "Pass 1 runs a seeded history fault-free and records the ordered I/O calls of every commit. Pass 2 re-executes the history once per (chosen commit, call index, applicable fault): write -> EIO / ENOSPC / short write then EIO / EINTR once / short write only; fsync -> EIO / EINTR; fallocate -> ENOSPC / EFBIG; mmap during growth -> ENOMEM; lseek -> EIO; plus sampled pairs. Oracle: commit returns (no panic), Err for non-benign and Ok for benign faults; on the same handle a fresh transaction shows exactly the old or exactly the new state and the raw file agrees; the rest of the history, three further write transactions (one with a multi-page value) and a reopen all verify against the model and the file checker.",
+   "single faults are exhaustive over the calls of the chosen commits only; a failed fsync leaves the written data in the page cache (the harsher drop-dirty-pages model is not applied, the statement does not ask for it)",
+   "deterministic simulation with fault injection: per-call errno / short-write plans at the libc seam"),
+ "C12": ("fault_enumeration", "corrupt", "4.C12",
+   "After n = 0..6 commits whose states all differ and a clean close, every byte offset of either header page is mutated five ways (xor 0x01, xor 0x80, xor 0xff, zero, seeded byte), plus page zero / ones, record zero, seeded multi-byte overwrites and the other header's record copied over; one run in four first rewrites both headers in the legacy (SHA3) format. Each image is reopened: open must succeed without panic and show in full the state of the header the format still considers valid (the independent checker's rule decides whether a mutation invalidated the header; for bytes neither checksummed nor used either state is accepted).",
+   "exhaustive over offsets and the listed mutations for the sampled histories; page size 1024 in quick, 1024-4096 in thorough",
+   "deterministic simulation with fault injection: exhaustive single-byte media damage of either header"),
+})
+
 def main():
     checks=[]
     for pid,(lvl,eng,ref,text,note,tech) in sorted(CLAIMED.items()):
